@@ -1,0 +1,15 @@
+//go:build verif
+
+package grpc
+
+// Contracts of the b6vc verifier (/verif).
+
+// ---- C26: the gRPC Evaluate handler returns an error whenever applying the
+// evaluated change failed (ghost state recorded by the contract of
+// ingest.Change.Apply). Everything else on the way is havocked.
+
+//@ func (*service).Evaluate
+//@   ghostvar applied = false
+//@   ghostvar applyFailed = false
+//@   requires s.lock != nil && s.worlds != nil && request != nil
+//@   ensures implies(applied && applyFailed, result1 != nil)
